@@ -1,4 +1,4 @@
-CONSTANTS D = 4  NStates = {1, 3}  Shapes = {0, 3}  Salts = {0, 1}  Stages = {0, 2}  WinSets = {1, 3, 5}
+CONSTANTS D = 4  NStates = {1, 3}  Shapes = {0, 3}  Salts = {0, 1}  Stages = {0, 2}  WinSets = {1, 3, 5, 7}
   MaxUttStates = 10  MaxLabels = 2  LabelIdx = {1, 7}  CondIdx = {1, 2, 3, 5, 6, 7}
 SPECIFICATION Spec
 INVARIANTS Emit EmitVoice
